@@ -58,6 +58,7 @@ class FnInfo:
         self.verus_names = []
         self.probes = []
         self.lost = []
+        self.assumed = False
 
 
 def _registry_path(spec):
@@ -290,6 +291,16 @@ def build_fn(unit, file_spec, item_spec, opts, sections, log, probes=False):
         info.has_contract = True
         edits.append((ob, 0, [("", None)] + spec_lines + [("", None)]))
 
+    info.assumed = "assumed" in opts
+    if info.assumed:
+        # keep signature + requires/ensures, drop the body: the contract is proved in the function's home unit
+        spec_txt = "\n".join(ln for ln, _ in spec_lines)
+        cb0 = lex.match_close(masked, ob)
+        sig = text[:ob].rstrip()
+        info.clauses = []
+        info.has_contract = True
+        final = lead + "#[verifier::external_body]\n" + sig + "\n" + spec_txt + "\n{ unimplemented!() }" + text[cb0 + 1:]
+        return final, info, []
     loops = _loops(masked, ob)
     for key in secd:
         m = re.match(r"loop\s+(\d+)$", key)
@@ -450,9 +461,21 @@ def assemble(unit, template_text=None, probes=False):
         p = os.path.join(VERIF, m.group(1).strip())
         with open(p, encoding="utf-8") as f:
             return f.read()
+    def inc_assumed(m):
+        p = os.path.join(VERIF, m.group(1).strip())
+        with open(p, encoding="utf-8") as f:
+            t = f.read()
+        # every fn directive of the fragment becomes an assumed contract (body dropped, external_body)
+        def mark(dm):
+            head = dm.group(1)
+            if ";" in head:
+                return "/*@ fn" + head + " assumed" + dm.group(2)
+            return "/*@ fn" + head + " ; assumed" + dm.group(2)
+        return re.sub(r"/\*@ fn([^\n]*)(\n|\s*@\*/)", mark, t)
     for _ in range(4):
+        template_text, n1 = re.subn(r"^[ \t]*//@include-assumed\s+(\S+)[ \t]*$", inc_assumed, template_text, flags=re.M)
         template_text, n = re.subn(r"^[ \t]*//@include\s+(\S+)[ \t]*$", inc, template_text, flags=re.M)
-        if not n:
+        if not n and not n1:
             break
     out = []
     infos = []
